@@ -20,7 +20,7 @@ import posixpath
 class MemFS:
     def __init__(self, cwd="/r"):
         self.files = {}  # abs path -> str
-        self.links = {}  # abs path -> abs target (file or directory symlink)
+        self.links = {}  # abs path -> link text as stored in the link (absolute, or relative to the link's directory)
         self.dirs = {"/"}
         self.maybe = {}  # abs path -> bool (possibly symbolic): overrides existence of a regular file
         self.cwd = cwd
@@ -47,7 +47,10 @@ class MemFS:
     def symlink(self, path, target):
         path = posixpath.normpath(path)
         self.mkdir(posixpath.dirname(path))
-        self.links[path] = posixpath.normpath(target)
+        self.links[path] = posixpath.normpath(target) if target.startswith("/") else target
+
+    def readlink(self, p):
+        return self.links[self.abspath(p)]
 
     # resolution -----------------------------------------------------------
     def abspath(self, p):
@@ -75,6 +78,8 @@ class MemFS:
             cur = cur + "/" + part
             if cur in self.links:
                 tgt = self.links[cur]
+                if not tgt.startswith("/"):
+                    tgt = posixpath.dirname(cur) + "/" + tgt
                 rest = "/".join(parts[i + 1:])
                 return self.realpath(tgt + ("/" + rest if rest else ""), _depth + 1)
         return cur or "/"
@@ -132,7 +137,7 @@ class MemFS:
             q = root + p
             os.makedirs(os.path.dirname(q), exist_ok=True)
             if not os.path.lexists(q):
-                os.symlink(root + t, q)
+                os.symlink(root + t if t.startswith("/") else t, q)
 
 
 class TextFile:
@@ -220,6 +225,25 @@ def make_path_class(fs):
 
         def resolve(self):
             return FakePath(fs.realpath(self.p))
+
+        def readlink(self):
+            return FakePath(fs.readlink(self.p))
+
+        def absolute(self):
+            return FakePath(self.p if self.p.startswith("/") else posixpath.join(fs.cwd, self.p))
+
+        def is_absolute(self):
+            return self.p.startswith("/")
+
+        def is_file(self):
+            return fs.isfile(self.p)
+
+        @property
+        def parent(self):
+            return FakePath(posixpath.dirname(self.p))
+
+        def __truediv__(self, o):
+            return FakePath(posixpath.join(self.p, str(o)))
 
         def exists(self):
             return fs.exists(self.p)
